@@ -112,6 +112,18 @@ def run(ctx, rep):
             check_stream(rep, [], pk, [], segs, "size-sweep")
         if size % 37 == 0:
             model_cases.append(cuts_to_segments(stream, [len(stream) // 2]))
+    # ---- the same segmentations with seconds / hours between two segments: the result must not depend on WHEN the bytes arrive ----
+    for gap in (1.5, 30.0, 7200.0):
+        for _ in range(ctx.n(25, 300)):
+            pk = [mk_packet(rng, rng.randrange(0, 60), rng.random() < 0.3) for _ in range(rng.randrange(1, 4))]
+            stream = [b for p_ in pk for b in p_]
+            cuts = sorted({rng.randrange(1, len(stream)) for _ in range(rng.randrange(1, 5))})
+            segs = cuts_to_segments(stream, cuts)
+            buf, q = F.reassemble_gaps(segs, gap)
+            rep.case(("gap", gap, tuple(stream), tuple(cuts)), "time-gap")
+            if buf or q != [list(p_) for p_ in pk]:
+                rep.fail("oracle", "result-depends-on-arrival-times", {"segments": [bytes(x).hex() for x in segs], "seconds_between_segments": gap},
+                         {"delivered": [bytes(x).hex() for x in q], "buffer": bytes(buf).hex(), "expected_packets": [bytes(bytes(x)).hex() for x in pk]})
     # ---- arbitrary bytes (incl. hostile length fields) for the correspondence -------------------------
     for _ in range(ctx.n(300, 3000)):
         stream = [rng.choice([0x83, 0x70, 0, 1, rng.randrange(256)]) for _ in range(rng.randrange(0, 60))]
